@@ -115,7 +115,7 @@ def enum_patterns(maxlen):
 # traffic on the same protocol object (answered and abandoned requests) is interleaved.  The
 # observable trace must be the model's trace for the same O/F history.
 
-async def drive_mrp(history, abandon_before):
+async def drive_mrp(history, abandon_before, stop_inflight=False):
     """history: string over O/F (device answers / is silent for the i-th keep-alive);
     abandon_before: index of the keep-alive before which a user request is abandoned (or None)."""
     from pyatv.protocols.mrp import messages, protobuf
@@ -182,6 +182,27 @@ async def drive_mrp(history, abandon_before):
             await asyncio.sleep(0)
         else:
             await asyncio.sleep(5.5)  # send_and_receive times out after 5 s
+    if stop_inflight and not conn.closed:
+        # the connection is closed by the user while a keep-alive is in flight (or while the loop
+        # sleeps): the loop must end quietly - no failure, no further keep-alive
+        for _ in range(2000):
+            hb = [m for m in conn.sent[seen:] if m.type == protobuf.GENERIC_MESSAGE]
+            if hb or conn.closed:
+                break
+            await asyncio.sleep(0.1)
+        if hb:
+            trace.append("Send")
+            seen = len(conn.sent)
+        proto.stop()
+        closed_by_stop = conn.closed
+        await asyncio.sleep(300)
+        extra = len([m for m in conn.sent[seen:] if m.type == protobuf.GENERIC_MESSAGE])
+        trace.append("Finish")
+        if extra:
+            trace.append("SendAfterStop")
+        if conn.closed != closed_by_stop:
+            trace.append("FailureAfterStop")
+        return trace
     # let a pending failure be reported: nothing may happen for a long while
     sent_before = len([m for m in conn.sent[seen:] if m.type == protobuf.GENERIC_MESSAGE])
     closed = conn.closed
@@ -281,6 +302,21 @@ def callsites(ctx, cases_mrp, cases_ap2):
                     ctx.violation("C19:mrp-callsite:" + e, "MrpProtocol keep-alive: " + e,
                                   {"site": "mrp", "device": hist, "abandoned_request_before": ab, "impl_trace": trace})
                 cases_mrp.append((r, hist, [t for t in trace if t != "ActivityAfterFailure"], "Failure" in trace))
+    # user closes the connection (stop) while a keep-alive is outstanding, after every live prefix
+    for n in range(0, maxlen):
+        for hist in itertools.product("OF", repeat=n):
+            hist = "".join(hist)
+            if model_py(r, hist):
+                continue
+            trace = vloop.run(drive_mrp, hist, None, True)
+            ctx.case(("mrp-stop", hist), nontrivial=True, sample={"site": "MrpProtocol.stop() during keep-alive", "device": hist, "trace": trace} if hist == "OF" else None)
+            ctx.count("mrp-stop-inflight")
+            for bad in ("SendAfterStop", "FailureAfterStop"):
+                if bad in trace:
+                    ctx.violation("C19:mrp-callsite:" + ("keepalive-after-close" if bad == "SendAfterStop" else "failure-reported-on-close"),
+                                  "MrpProtocol.stop() while a keep-alive is in flight: " + bad,
+                                  {"site": "mrp-stop", "device": hist, "impl_trace": trace})
+            cases_mrp.append((r, hist + "C", [t for t in trace if t in ("Send", "Finish")], False))
     for n in range(1, maxlen + 1):
         for hist in itertools.product("SOFC", repeat=n):
             hist = "".join(hist)
